@@ -158,6 +158,10 @@ static bool fail_on_warnings = false;
 static bool rules_are_compiled = false;
 static bool disable_console_logs = false;
 static long total_count = 0;
+
+// Set when some file could not be scanned while scanning a directory or a
+// scan list, the exit status is EXIT_FAILURE in that case.
+static bool scan_errors = false;
 static long limit = 0;
 static long timeout = 1000000;
 static long stack_size = DEFAULT_STACK_SIZE;
@@ -1418,6 +1422,7 @@ static void* scanning_thread(void* param)
         cli_mutex_lock(&output_mutex);
         _ftprintf(stderr, _T("error scanning %s: "), file_path);
         print_scanner_error(args->scanner, result);
+        scan_errors = true;
         cli_mutex_unlock(&output_mutex);
       }
 
@@ -1764,7 +1769,7 @@ int _tmain(int argc, const char_t** argv)
 
     file_queue_destroy();
 
-    if (result != ERROR_SUCCESS)
+    if (result != ERROR_SUCCESS || scan_errors)
       exit_with_code(EXIT_FAILURE);
   }
   else
